@@ -1,0 +1,13 @@
+//go:build verif
+
+package valuenotifier
+
+// VerifBeforeSelect, when set, is called by Listener.Wait after the deregistered check and right before the select
+// (verification builds only). It allows a test harness to park a waiter at exactly that program point.
+var VerifBeforeSelect func(l *Listener)
+
+func verifBeforeSelect(l *Listener) {
+	if f := VerifBeforeSelect; f != nil {
+		f(l)
+	}
+}
